@@ -15,7 +15,9 @@ HREFS = ["http://lemonde.fr/a", "https://www.x.com/p?q=1&amp;r=2", "//cdn.x.com/
          "http://x.notatld/", "http://base.com/page", "http://é.fr/é", "HTTP://UP.COM/", "../up", "?q=only", "http://a.com/&#x2F;b", "http://dup.com/", "http://dup.com/", "ftp://f.com/x",
          "http://127.0.0.1/x", "http://x.com/\xa0y",
          # different spellings resolving to one url under each of the bases
-         "/rel.html", "./rel.html", "http://base.com/rel.html", "https://www.x.com/dir/rel.html", "http://lemonde.fr/rel.html", "/dir/rel.html", "rel.html#f", "rel.html"]
+         "/rel.html", "./rel.html", "http://base.com/rel.html", "https://www.x.com/dir/rel.html", "http://lemonde.fr/rel.html", "/dir/rel.html", "rel.html#f", "rel.html",
+         # white space that str.strip() removes but bytes.strip() does not, at the edges of the value
+         "\xa0http://nb.com/a\xa0", "\u2003http://em.com/", "\x1chttp://fs.com/\x1f", "\u3000/ideographic.html\u3000"]
 
 
 def anchor(rng, href):
